@@ -79,3 +79,35 @@ pub fn vmasterkey_from_json(d: &Vec<u8>) -> (r: RusticResult<Key>) ensures r mat
 pub struct KeyFileK { pub n: u32, pub r: u32, pub p: u32, pub salt: Vec<u8>, pub data: Vec<u8> }
 // the wrapping key a password yields for a key file
 pub open spec fn wrapping_key(kf: KeyFileK, pw: Seq<u8>) -> AeadKey { KEY_OF(SCRYPT(pw, kf.salt@, LOG2(kf.n), kf.r, kf.p)) }
+
+// ---- KeyFile::generate: wrapping the master key under a password (round trip with key_from_password) ----
+// correctness of the AEAD (ASSUMED): what was encrypted and tagged under (key, nonce) verifies and decrypts to the plaintext
+#[verifier::external_body]
+pub proof fn axiom_aead_correct(k: AeadKey, n: Seq<u8>, d: Seq<u8>)
+    ensures AEAD_OK(k, n, CT(k, n, d) + TAG(k, n, d)), PT(k, n, CT(k, n, d) + TAG(k, n, d)) == d,
+{}
+pub struct MasterKeyJ { pub k: Ghost<AeadKey> }
+#[verifier::external_body]
+pub fn vmasterkey_from_key(key: Key) -> (r: MasterKeyJ) ensures r.k@ == key.0, { unimplemented!() }
+pub struct SerdeErr { pub _opaque: u64 }
+// serde_json::to_vec(&masterkey): ASSUMED inverse of the parse used when a key file is opened
+#[verifier::external_body]
+pub fn vmasterkey_to_json(m: &MasterKeyJ) -> (r: Result<Vec<u8>, SerdeErr>)
+    ensures r matches Ok(v) ==> MK_PARSE(v@) == m.k@ && v@.len() < 0x1_0000,
+{ unimplemented!() }
+impl ParamsR {
+    // scrypt::Params::RECOMMENDED
+    #[verifier::external_body]
+    pub fn recommended() -> ParamsR { unimplemented!() }
+    pub fn log_n(&self) -> (r: u8) ensures r == self.log_n, { self.log_n }
+    pub fn r(&self) -> (r: u32) ensures r == self.r, { self.r }
+    pub fn p(&self) -> (r: u32) ensures r == self.p, { self.p }
+}
+// 2_u32.pow(log_n): the stored cost parameter; log_2 (used when the key file is opened) is its inverse (ASSUMED)
+#[verifier::external_body]
+pub fn vpow2(log_n: u8) -> (r: u32) ensures LOG2(r) == log_n, { unimplemented!() }
+#[verifier::external_body]
+pub fn vzeroed64() -> (r: Vec<u8>) ensures r@.len() == 64, { unimplemented!() }
+// rng().fill_bytes(&mut salt): any bytes
+#[verifier::external_body]
+pub fn vrng_fill_salt(salt: &mut Vec<u8>) ensures final(salt)@.len() == old(salt)@.len(), { unimplemented!() }
